@@ -175,6 +175,9 @@ def table():
                   T(dd + "#[display(\"e\")] enum {S}{G}{W} {{ @[error(ignore)] Ig {{ source: {C} }}, {V}({C}) }}", gens=st, note="ignored variant first"),
                   T(dd + "#[display(\"e\")] enum {S}{G}{W} {{ {V}({C}) }}", gens=st, note="single sourced variant"),
                   T(dd + "#[display(\"e\")] struct {S}<T> {{ source: T, {F}: u8 }}", gens=["none"]),
+                  T(dd + "#[display(\"e\")] struct {S}<T: 'static> {{ source: &'static T }}", gens=["none"], note="type parameter behind a reference"),
+                  T(dd + "#[display(\"e\")] struct {S}<T: Tr> where <T as Tr>::A: ::core::fmt::Debug {{ source: <T as Tr>::A }}", gens=["none"], note="type parameter in a qualified self type"),
+                  T(dd + "#[display(\"e\")] struct {S}<T>(Box<T>);", gens=["none"], note="type parameter inside a generic argument"),
                   T(dd + "#[display(\"e\")] enum {S}<T, U> {{ {V}(T), B {{ source: U }}, Cc }}", gens=["none"]),
                   T(dd + "#[display(\"e\")] struct {S}{G}{W} {{ {F}: {C} }}"),
                   T(dd + "#[display(\"e\")] struct {S};", gens=["none"])]
